@@ -185,6 +185,9 @@ pub fn enter(val: *mut Val, o: usize, key: u32, stream_item: Option<(usize, usiz
             // do not touch the value: it is gone
             violation("C05", "operation_started_after_value_destroyed", &[key], format!("operation {} on object {} was started after the protected value had been destroyed", key, o));
             violation("C14", "value_used_after_free", &[key], format!("operation {} would access the freed value of object {}", key, o));
+            if world.objs[o].panic_injected {
+                violation("C15", "dead_queue_ran_later", &[key], format!("operation {} had been left in the queue of panicked object {}; it was started after the object had been released and its value freed", key, o));
+            }
             crate::sim::abandon("value used after destruction");
         }
     }
